@@ -319,6 +319,13 @@ class State:
         return (tr.get(("icmp", "uge", a, b)) is True or tr.get(("icmp", "ule", b, a)) is True or
                 tr.get(("icmp", "ult", a, b)) is False or tr.get(("icmp", "ugt", b, a)) is False or self.rel_gt(a, b, upto))
 
+    def known_positive(self, t):
+        """is `t >= 1` (unsigned) known on this path, however the test was spelled (t > 0, t != 0, !(t == 0), t >= 1 ...)?"""
+        if is_const(t):
+            return t[1] >= 1
+        return self.lo.get(t, 0) >= 1 or 0 in self.nec.get(t, ()) or self.truth.get(("icmp", "eq", t, ZERO)) is False or \
+            self.truth.get(("icmp", "ne", t, ZERO)) is True or self.truth.get(("icmp", "ugt", t, ZERO)) is True or self.truth.get(t) is True
+
     def known_nonnull(self, t, upto=None):
         """is `t != 0` among the facts (optionally only the first `upto` facts)?"""
         if is_const(t):
